@@ -1,17 +1,22 @@
 """C13 - QC checks raise exactly on offenders and discard exactly them.
 
-Relations
+Relations (case types and checkers: C13_CheckW.v, built on C13_Check.v)
   qc   : a sequence of check_missing / check_biallelic / check_phase / check_maf /
          check_sorted calls on a Genotypes / GenotypesVCF / GenotypesPLINK /
-         GenotypesAncestry object whose arrays are set directly; after every call the
-         outcome (returned / ValueError naming sample+variant) and the object's
-         contents (samples, variants, data, ancestry, returned MAF) are observed.
-  load : cls.load() of a generated bgzipped+tabixed VCF (read + the three default
-         checks) against the model's composition of the checks.
+         GenotypesAncestry object whose arrays are set directly (uint8, or bool as check_biallelic
+         leaves them); after every call the outcome (returned / ValueError naming sample+variant),
+         the object's contents (samples, variants, data, ancestry, returned MAF), the dtype of data
+         and - for check_maf - the WARNING records it logged are observed.  Width-boundary tables
+         (hundreds to tens of thousands of samples, a thousand variants, > 65535 calls) are kept as
+         specifications in the input and written as compact literals (c13_w.py, C13_Wide.v).
+  load : cls.load() of a generated file (read + the checks that loader runs) for all six loaders:
+         Genotypes / GenotypesVCF / GenotypesAncestry (VCF.gz), GenotypesPLINK (PGEN), GenotypesTR
+         (HipSTR-style VCF.gz), GenotypesPLINKTR (PGEN + annotated PVAR); against the model's
+         composition of the checks on what a bare read() of the same file delivers.
   files: a history on ONE object that read()s real files written by the harness (VCF.gz with
          GT or GT:POP, PGEN+PVAR+PSAM): read / checks (raise and discard modes) / read of the
-         same or another file again / checks ..., 1-8 calls; outcome and contents after every
-         call; every check's verdict must be about the data loaded at that moment.
+         same or another file again / checks ..., 1-8 calls; outcome, contents, dtype and warnings
+         after every call; every check's verdict must be about the data loaded at that moment.
 
 Sample and variant IDs repeat in the generated data (duplicate rsIDs, an ID column that is '.'
 everywhere = variant ID -1, duplicate sample IDs where the class / file format accepts them):
@@ -19,40 +24,55 @@ offenders and survivors are identified by position, never by ID.
 """
 import os
 import re
+from collections import Counter
 import shutil
 import tempfile
 
 import numpy as np
 
 from . import coqlit as L
+from . import c13_w as W
 from .core import Relation, err_kind
 
 PROP = "C13"
 CLAIMED = True
-COQ_MODULES = ["GenoTable", "C13_Model", "C13_Check", "C13_Proofs", "C13_Sound", "C13_ProofsHist"]
+COQ_MODULES = ["GenoTable", "C13_Model", "C13_Check", "C13_Proofs", "C13_Sound", "C13_ProofsHist",
+               "C13_Wide", "C13_ModelW", "C13_CheckW", "C13_ProofsW"]
+W_IMPORTS = ["GenoTable", "C13_Model", "C13_Check", "C13_ModelW", "C13_Wide"]
 PROPERTY_MODULE = "C13_Property"
 ALLOWED_AXIOMS = []
 RULE = (
-    "qc: arrays 0-5 samples x 0-6 variants (2 or 3 planes; IDs unique / repeated / '.'), cells drawn from {0,1} plus injected offenders "
-    "(255/254 in one or both alleles, allele indices 2..253, unphased heterozygotes with and without the reference "
-    "allele), 1-4 checks in random order with random discard flags, thresholds None/0/0.5/attainable "
-    "frequencies/off-grid; all four classes (+ GenotypesTR for the checks it inherits). files: 1-2 files of 1-4 samples x "
-    "1-5 variants read by one object, histories of 1-8 calls mixing read (whole file / some samples / some variants), "
-    "the checks and re-reads. Non-trivial = at least one call met an offender (raised or discarded "
+    "qc: arrays 0-5 samples x 0-6 variants (2 or 3 planes; IDs unique / repeated / '.'; dtype uint8 or, for 0/1 tables, bool as "
+    "check_biallelic leaves it; positions small or straddling 2^31 / next to 2^32-1), cells drawn from {0,1} plus injected offenders "
+    "(255/254 in one or both alleles, allele indices 2..253 incl. 126|127|128|129|252|253, unphased heterozygotes with and without the "
+    "reference allele), 1-4 checks in random order with random discard / warn_only flags, thresholds None/0/0.5/attainable "
+    "frequencies/off-grid; all four classes (+ GenotypesTR for the checks it inherits); plus, per run, width-boundary tables kept as "
+    "specifications: 127..257 samples x 1-3 variants (allele counts beyond int8/uint8), 1-3 samples x 255..1001 variants, "
+    "16383..32769 samples (allele counts beyond int16/uint16) or 256x256..257x256 calls (> 65535), offenders at the index "
+    "boundaries. load: cls.load for Genotypes / GenotypesVCF / GenotypesAncestry (VCF.gz), GenotypesPLINK (PGEN), GenotypesTR "
+    "(HipSTR-style VCF.gz), GenotypesPLINKTR (PGEN + annotated PVAR), 1-5 samples x 1-6 variants and 128/255/256/257 samples. "
+    "files: 1-2 files of 1-4 samples x 1-5 variants read by one object, histories of 1-8 calls mixing read (whole file / some "
+    "samples / some variants), the checks and re-reads. Non-trivial = at least one call met an offender (raised or discarded "
     "something) or stripped the phase plane. Distinct = distinct canonical JSON."
 )
 TRUSTED = [
     "numpy nonzero/delete/boolean casts are modelled as list operations (GenoTable.v) and exercised on every case",
     "IEEE double division/subtraction/comparison = Coq PrimFloat (bit exact) for the MAF values and threshold tests",
-    "error messages are parsed by regular expressions to recover the named sample and variant",
-    "files relation: the harness' own writers (VCF text + bgzip via pysam, PGEN via pgenlib.PgenWriter) put into the "
-    "files what the tables say; what read() must deliver from them (calls, phase flags, POP labels decoded through the "
-    "object's popnum_ancestry) is compared with the tables on every case",
+    "error messages are parsed by regular expressions to recover the named sample and variant; the WARNING records of "
+    "check_maf are captured with a logging.Handler on the object's own logger (their wording is not demanded: an unparsed "
+    "record counts as a warning that names nothing)",
+    "files / load relations: the harness' own writers (VCF text + bgzip via pysam, PGEN via pgenlib.PgenWriter, HipSTR-style "
+    "headers for the repeat classes) put into the files what the tables say; what read() delivers from them is observed on "
+    "every case (load: the table the model starts from is what a bare read() of the same file returned)",
+    "wide tables are written as compact literals (repz / zrun / vrun, C13_Wide.v, specifications proved: C13_repz_spec, "
+    "C13_zrun_spec, C13_vrun_nth); the printer that chooses them is part of the harness",
 ]
 ASSUMPTIONS = [
     "arrays are rectangular: len(samples) x len(variants) x (2|3)",
     "files relation: read(variants=...) is only asked for IDs that occur once in the file (no truncation by the "
     "preallocation of len(variants) records); files hold at least one sample and one variant",
+    "GenotypesTR / GenotypesPLINKTR are outside the property's quantifier; their loaders are modelled as they are (read + "
+    "check_phase) and held to the phase clause only: missing repeat calls are returned by load()",
 ]
 CLASSES = ["Genotypes", "GenotypesVCF", "GenotypesPLINK", "GenotypesAncestry"]
 # GenotypesTR inherits check_missing / check_phase / check_sorted unchanged (its check_biallelic and
@@ -96,7 +116,7 @@ def optz(x):
 
 
 def maf_term(m):
-    return L.lst(m, lambda x: "None" if x is None else f"(Some {L.q(float.fromhex(x))})")
+    return W.rle_term(["None" if x is None else f"(Some {L.q(float.fromhex(x))})" for x in m], min_run=6)
 
 
 def op_term(op):
@@ -131,6 +151,28 @@ class Shared:
         return "(" + "".join(f"let {n} := {d} in " for n, d in self.defs) + body + ")"
 
 
+class SharedC(Shared):
+    """as Shared, with the compact literals of C13_Wide.v for long regular lists"""
+
+    def __call__(self, t):
+        key = W.tab_term_c(t)
+        if key not in self.names:
+            self.names[key] = f"t{len(self.names)}"
+            self.defs.append((self.names[key], key))
+        return self.names[key]
+
+
+def wobs_term(o, sh):
+    """C13_CheckW.wobs: the outcome, dtype == bool afterwards, the WARNING records of a check_maf call"""
+    warn = L.lst(o.get("warn") or [], optz)
+    return f"mkw ({obs_term(o, sh)}) {L.b(o.get('bool', False))} {warn}"
+
+
+def table_of(inp):
+    """the initial table of a qc input (wide tables are kept as a specification in the JSON)"""
+    return inp["table"] if "table" in inp else W.wide_table(inp["wide"])
+
+
 def obs_term(o, sh):
     if "other" in o:
         return f"OOther {L.z(o['other'])}"
@@ -152,10 +194,10 @@ def build_object(inp):
 
     cls = {"Genotypes": hd.Genotypes, "GenotypesVCF": hd.GenotypesVCF, "GenotypesPLINK": hd.GenotypesPLINK,
            "GenotypesAncestry": GenotypesAncestry, "GenotypesTR": hd.GenotypesTR}[inp["cls"]]
-    log = logging.getLogger("hv_c13")
-    log.setLevel(logging.CRITICAL + 1)
+    log, cap = W.make_log()
     g = cls(fname=None, log=log)
-    t = inp["table"]
+    g._hv_cap = cap
+    t = table_of(inp)
     n, p, k = len(t["samples"]), len(t["variants"]), t["planes"]
     g.samples = tuple(f"s{i}" for i in t["samples"])
     if "alleles" in g.variants.dtype.names:
@@ -164,15 +206,17 @@ def build_object(inp):
         recs = [(vname(v[0]), str(v[1]), v[2]) for v in t["variants"]]
     g.variants = np.array(recs, dtype=g.variants.dtype)
     arr = np.zeros((n, p, k), dtype=np.uint8)
-    for i, row in enumerate(t["rows"]):
-        for j, c in enumerate(row):
-            arr[i, j, :] = c[:k]
+    if n and p:
+        arr[:, :, :] = np.array([[c[:k] for c in row] for row in t["rows"]], dtype=np.int64).reshape(n, p, k)
+    if inp.get("dtype") == "bool":
+        # arrays handed over as check_biallelic leaves them (only tables of 0/1 are generated with this flag)
+        assert arr.max(initial=0) <= 1
+        arr = arr.astype(np.bool_)
     g.data = arr
     if inp["cls"] == "GenotypesAncestry":
         a = np.zeros((n, p, 2), dtype=np.uint8)
-        for i, row in enumerate(t["anc"]):
-            for j, c in enumerate(row):
-                a[i, j, :] = c
+        if n and p:
+            a[:, :, :] = np.array(t["anc"], dtype=np.int64).reshape(n, p, 2)
         g.ancestry = a
     return g
 
@@ -185,7 +229,9 @@ def observe_state(g, is_anc, decode=False):
         raise AssertionError("data is not 3-dimensional")
     k = int(d.shape[2])
     di = d.astype(np.int64)
-    rows = [[[int(c[0]), int(c[1]), int(c[2]) if k >= 3 else 0] for c in r] for r in di]
+    if k < 3:
+        di = np.concatenate([di[:, :, :2], np.zeros(di.shape[:2] + (1,), dtype=np.int64)], axis=2)
+    rows = di[:, :, :3].tolist()
     st = {
         "samples": [int(str(s)[1:]) for s in g.samples],
         "variants": [[vparse(v["id"]), int(str(v["chrom"])), int(v["pos"])] for v in g.variants],
@@ -233,7 +279,12 @@ WANT = {"missing": "missing", "biallelic": "multiallelic", "phase": "unphased"}
 
 
 def run_check_op(g, op, is_anc, decode=False):
-    """one QC call on the object g: what it did and the object's contents afterwards"""
+    """one QC call on the object g: what it did, the object's contents afterwards, whether data has dtype bool
+    afterwards, and (check_maf) the WARNING-level log records the call emitted"""
+    import logging
+
+    cap = getattr(g, "_hv_cap", None)
+    n0 = len(cap.records) if cap is not None else 0
     try:
         with np.errstate(all="ignore"):
             ret = apply_op(g, op)
@@ -258,6 +309,14 @@ def run_check_op(g, op, is_anc, decode=False):
         # encoded as an outcome no clause accepts
         o = {"other": 98, "msg": f"arrays out of step after {op['op']}: {o['state']['shape_mismatch']}",
              "partial": {k: o["state"][k] for k in ("samples", "variants", "planes")}}
+    if "other" not in o:
+        o["bool"] = bool(np.asarray(g.data).dtype == np.bool_)
+        if op["op"] == "maf" and cap is not None:
+            o["warn"] = []
+            for lvl, msg in cap.records[n0:]:
+                if lvl == logging.WARNING:
+                    m = RX_MAF.match(msg)
+                    o["warn"].append(vparse(m.group(1)) if m else None)
     return o
 
 
@@ -297,11 +356,29 @@ def offenders(t, kind, anc, may=False):
     return out
 
 
+def rare_band(t, thr):
+    """(some variant certainly below thr, some variant possibly below thr) - python twin of C13_CheckW.maf_must / maf_may"""
+    from fractions import Fraction
+
+    n = len(t["rows"])
+    if not n or thr != thr or thr in (float("inf"), float("-inf")):
+        return False, True
+    tq, eps = Fraction(thr), Fraction(1, 10**9)
+    must = may = False
+    for j in range(len(t["variants"])):
+        k = sum((1 if r[j][0] else 0) + (1 if r[j][1] else 0) for r in t["rows"])
+        f = Fraction(k, 2 * n)
+        m = min(f, 1 - f)
+        must = must or m + eps < tq
+        may = may or (m <= tq + eps and m != tq)
+    return must, may
+
+
 def describe(inp, obs):
     if not isinstance(obs, dict) or "steps" not in obs:
         return "qc harness-level failure"
     anc = inp["cls"] == "GenotypesAncestry"
-    cur = inp["table"]
+    cur = table_of(inp)
     for op, o in zip(inp["ops"], obs["steps"]):
         k = op["op"]
         if "other" in o:
@@ -320,6 +397,12 @@ def describe(inp, obs):
                 return f"check_{k} raises without an offending call"
             if "raise" in o and disc:
                 return f"check_{k} raises in discard mode"
+        if k == "maf" and op.get("warn") and not op.get("discard") and op.get("thr") is not None and "state" in o and "warn" in o:
+            must, may = rare_band(cur, op["thr"])
+            if must and not o["warn"]:
+                return "check_maf(warn_only) logs no warning although a variant is below the threshold"
+            if o["warn"] and not may:
+                return "check_maf(warn_only) logs a warning although no variant is below the threshold"
         cur = o["state"]
     return "qc sequence: outcome or surviving data differ from the property's clause"
 
@@ -388,14 +471,14 @@ def gen_table(rng, cls, flavour):
                 c[int(rng.integers(0, 2))] = 254
                 c[2] = 0
             elif kind == "multi":
-                c[int(rng.integers(0, 2))] = int(rng.choice([2, 2, 3, 7, 253]))
+                c[int(rng.integers(0, 2))] = int(rng.choice([2, 2, 3, 7, 253, 126, 127, 128, 129, 252]))
             elif kind == "multi2":
-                c[0], c[1] = int(rng.choice([2, 3, 253])), int(rng.choice([2, 3, 253]))
+                c[0], c[1] = int(rng.choice([2, 3, 253, 127, 128])), int(rng.choice([2, 3, 253, 127, 128]))
             elif kind == "unph01":
                 c[0], c[1] = (0, 1) if rng.random() < 0.5 else (1, 0)
                 c[2] = 0
             elif kind == "unph12":
-                c[0], c[1] = [(1, 2), (2, 1), (2, 3), (1, 253)][int(rng.integers(0, 4))]
+                c[0], c[1] = [(1, 2), (2, 1), (2, 3), (1, 253), (127, 128), (128, 129), (0, 128)][int(rng.integers(0, 7))]
                 c[2] = 0
             elif kind == "unphhom":
                 c[0] = c[1] = int(rng.choice([0, 1, 2]))
@@ -481,8 +564,9 @@ def discard_hits_twin(before, after):
     out = []
     for key, ids_b, ids_a in (("variant", [v[0] for v in before["variants"]], [v[0] for v in after["variants"]]),
                               ("sample", before["samples"], after["samples"])):
-        for x in set(ids_b):
-            if ids_b.count(x) > 1 and 0 < ids_a.count(x) < ids_b.count(x):
+        cb, ca = Counter(ids_b), Counter(ids_a)
+        for x, k in cb.items():
+            if k > 1 and 0 < ca.get(x, 0) < k:
                 out.append(f"discard-splits-equal-{key}-ids")
                 break
     return out
@@ -490,14 +574,15 @@ def discard_hits_twin(before, after):
 
 class QC(Relation):
     name = "qc"
-    coq_module = "C13_Check"
-    coq_check = "check_qc"
-    coq_case_type = "qcase"
-    coq_model = "model_qc"
-    coq_imports = ["GenoTable", "C13_Model"]
+    coq_module = "C13_CheckW"
+    coq_check = "check_wqc"
+    coq_case_type = "wqcase"
+    coq_model = "model_wqc"
+    coq_imports = W_IMPORTS
     budget = {"quick": 1500, "thorough": 30000}
-    max_cases_per_shard = 150
-    max_chars_per_shard = 70_000
+    # small shards: the cases are evaluated in parallel, and a wide table (seconds to evaluate) shares its shard with few others
+    max_cases_per_shard = 120
+    max_chars_per_shard = 36_000
     anchors = [
         ("haptools/data/genotypes.py", "Genotypes.check_missing"),
         ("haptools/data/genotypes.py", "Genotypes.check_biallelic"),
@@ -543,8 +628,38 @@ class QC(Relation):
                 ops = ops[:4]
             if cls == "GenotypesTR":
                 ops = [o for o in ops if o["op"] in TR_OPS] or [{"op": "phase"}]
-            out.append({"cls": cls, "table": t, "ops": ops, "kind": kind})
+            case = {"cls": cls, "table": t, "ops": ops, "kind": kind}
+            if rng.random() < 0.12 and all(c[0] <= 1 and c[1] <= 1 for r_ in t["rows"] for c in r_):
+                # the arrays are handed over with dtype bool (as check_biallelic leaves them): every check on bool data
+                case["dtype"] = "bool"
+            if rng.random() < 0.06:
+                # positions straddling 2^31 / next to 2^32 - 1 (the pos field is a uint32)
+                base = int(rng.choice([2**31 - 12, 2**32 - 1 - 40]))
+                t["variants"] = [[v[0], v[1], v[2] + base] for v in t["variants"]]
+            out.append(case)
+        # width boundaries (kept as specifications; not at the end: the last input is stored in the evidence file)
+        shapes = ["samples8", "variants"] + [["samples16", "cells"][int(rng.integers(0, 2))]]
+        if tier != "quick":
+            shapes = ["samples8", "variants", "samples16", "cells"] * max(1, n // 3000)
+        for k, shape in enumerate(shapes):
+            # spread over the shards (a wide table takes seconds to evaluate), never the last input
+            out.insert(min(max(len(out) - 1, 0), 1 + 131 * k), self.wide_case(rng, shape))
         return out
+
+    def wide_case(self, rng, shape):
+        cls = CLASSES[int(rng.integers(0, 3))] if rng.random() < 0.85 else "GenotypesAncestry"
+        planes = 3 if rng.random() < 0.8 else 2
+        w = W.gen_wide_spec(rng, shape, planes)
+        if cls == "GenotypesAncestry":
+            w["anc"] = [int(rng.integers(0, 3)), int(rng.integers(0, 3))]
+        ops = gen_ops(rng, w["n"], ["load", "perm", "free"][int(rng.integers(0, 3))])
+        if shape == "samples16":
+            # discarding samples out of tens of thousands is quadratic in the checker: not here
+            ops = [dict(o, discard=False) if o["op"] == "missing" else o for o in ops]
+        if not any(o["op"] == "maf" for o in ops):
+            ops.append({"op": "maf", "thr": [None, 0.25, 0.5, 0.1][int(rng.integers(0, 4))], "discard": False,
+                        "warn": bool(rng.random() < 0.5)})
+        return {"cls": cls, "wide": w, "ops": ops[:4], "kind": "wide-" + shape}
 
     def exhaustive(self, tier):
         # every 1 x 2 and 2 x 1 array over a small cell alphabet, every single check
@@ -573,20 +688,21 @@ class QC(Relation):
         return run_sequence(inp)
 
     def encode(self, inp, obs):
-        sh = Shared()
-        t0 = sh(inp["table"])
+        sh = SharedC()
+        t0 = sh(table_of(inp))
         anc = L.b(inp["cls"] == "GenotypesAncestry")
+        isb = L.b(inp.get("dtype") == "bool")
         if not isinstance(obs, dict) or "steps" not in obs:
             k = obs.get("kind", 99) if isinstance(obs, dict) else 99
-            steps = f"[({op_term(inp['ops'][0]) if inp['ops'] else 'OpSorted'}, OOther {L.z(k)})]"
-            return sh.wrap(f"mkq {anc} false {t0} {steps}")
-        parts = [f"({op_term(op)}, {obs_term(o, sh)})" for op, o in zip(inp["ops"], obs["steps"])]
-        return sh.wrap(f"mkq {anc} false {t0} {L.lst(parts)}")
+            steps = f"[({op_term(inp['ops'][0]) if inp['ops'] else 'OpSorted'}, mkw (OOther {L.z(k)}) false [])]"
+            return sh.wrap(f"mkwq {anc} {isb} {t0} {steps}")
+        parts = [f"({op_term(op)}, {wobs_term(o, sh)})" for op, o in zip(inp["ops"], obs["steps"])]
+        return sh.wrap(f"mkwq {anc} {isb} {t0} {L.lst(parts)}")
 
     def nontrivial(self, inp, obs):
         if not isinstance(obs, dict) or "steps" not in obs:
             return False
-        cur = inp["table"]
+        cur = table_of(inp)
         for o in obs["steps"]:
             if "raise" in o:
                 return True
@@ -597,12 +713,23 @@ class QC(Relation):
         return False
 
     def classes(self, inp, obs):
-        out = [inp["cls"], f"density={inp['kind']}", f"n={len(inp['table']['samples'])}", f"p={len(inp['table']['variants'])}"]
-        out += id_classes(inp["table"])
+        t0 = table_of(inp)
+        out = [inp["cls"], f"density={inp['kind']}", f"n={len(t0['samples'])}", f"p={len(t0['variants'])}"]
+        out += id_classes(t0)
+        if inp.get("dtype") == "bool":
+            out.append("dtype=bool-at-start")
+        if any(v[2] >= 2**31 for v in t0["variants"]):
+            out.append("positions>=2^31")
         if isinstance(obs, dict) and "steps" in obs:
-            cur = inp["table"]
+            cur = t0
+            isb = inp.get("dtype") == "bool"
             for op, o in zip(inp["ops"], obs["steps"]):
                 tag = op["op"] + ("+discard" if op.get("discard") else "")
+                if isb and "other" not in o:
+                    out.append(f"{op['op']}:on-bool-data")
+                isb = o.get("bool", isb)
+                if op["op"] == "maf" and op.get("warn") and not op.get("discard") and op.get("thr") is not None and "state" in o:
+                    out.append("maf-warn-only:" + ("warned" if o.get("warn") else "silent"))
                 if "raise" in o:
                     out.append(f"{tag}:raised")
                 elif "other" in o:
@@ -618,9 +745,21 @@ class QC(Relation):
         return sorted(set(out))
 
     def shrink(self, inp):
-        ops, t = inp["ops"], inp["table"]
+        ops = inp["ops"]
         for j in range(len(ops)):
             yield dict(inp, ops=ops[:j] + ops[j + 1:])
+        if "wide" in inp:
+            # a wide table stays a specification: fewer patches, then discard flags
+            w = inp["wide"]
+            for k in range(len(w.get("patches", []))):
+                yield dict(inp, wide=dict(w, patches=w["patches"][:k] + w["patches"][k + 1:]))
+            for j, op in enumerate(ops):
+                if op.get("discard"):
+                    yield dict(inp, ops=ops[:j] + [dict(op, discard=False)] + ops[j + 1:])
+            return
+        t = inp["table"]
+        if inp.get("dtype") == "bool":
+            yield {k: v for k, v in inp.items() if k != "dtype"}
         n, p = len(t["samples"]), len(t["variants"])
         for i in range(n):
             yield dict(inp, table=dict(t, samples=t["samples"][:i] + t["samples"][i + 1:], rows=t["rows"][:i] + t["rows"][i + 1:],
@@ -640,7 +779,12 @@ class QC(Relation):
                 yield dict(inp, ops=ops[:j] + [dict(op, discard=False)] + ops[j + 1:])
 
     def mutate(self, inp, rng):
+        if "wide" in inp:
+            for _ in range(6):
+                yield dict(inp, wide=W.gen_wide_spec(rng, inp["wide"]["shape"], inp["wide"]["planes"]))
+            return
         t = inp["table"]
+        inp = {k: v for k, v in inp.items() if k != "dtype"}
         n, p = len(t["samples"]), len(t["variants"])
         if not n or not p:
             return
@@ -732,50 +876,109 @@ def write_anc_vcf(path, t, pops=("A", "B", "C")):
     os.remove(plain)
 
 
+LOADERS = ["Genotypes", "GenotypesVCF", "GenotypesPLINK", "GenotypesAncestry", "GenotypesTR", "GenotypesPLINKTR"]
+TR_LOADERS = ("GenotypesTR", "GenotypesPLINKTR")
+
+
+def loader_term(cls):
+    return "LdTR" if cls in TR_LOADERS else ("LdAnc" if cls == "GenotypesAncestry" else "LdPlain")
+
+
 class Load(Relation):
+    """cls.load(file) for all six classes with a loader: Genotypes / GenotypesVCF / GenotypesAncestry from a VCF.gz,
+    GenotypesPLINK from a PGEN written with pgenlib, GenotypesTR from a HipSTR-style VCF.gz, GenotypesPLINKTR from a
+    PGEN whose .pvar carries the repeat annotations.  Compared with the model of what each loader runs on the table a
+    bare read() of the same file delivers."""
     name = "load"
-    coq_module = "C13_Check"
-    coq_check = "check_load"
-    coq_case_type = "lcase"
-    coq_model = "model_load"
-    coq_imports = ["GenoTable", "C13_Model"]
-    budget = {"quick": 150, "thorough": 3000}
-    max_cases_per_shard = 150
-    anchors = [("haptools/data/genotypes.py", "Genotypes.load"), ("haptools/data/genotypes.py", "Genotypes.read")]
+    coq_module = "C13_CheckW"
+    coq_check = "check_loadw"
+    coq_case_type = "lwcase"
+    coq_model = "model_loadw"
+    coq_imports = W_IMPORTS
+    budget = {"quick": 220, "thorough": 4000}
+    max_cases_per_shard = 60
+    max_chars_per_shard = 25_000
+    anchors = [("haptools/data/genotypes.py", "Genotypes.load"), ("haptools/data/genotypes.py", "Genotypes.read"),
+               ("haptools/data/genotypes.py", "GenotypesTR.load"), ("haptools/data/genotypes.py", "GenotypesPLINKTR.load"),
+               ("haptools/data/genotypes.py", "GenotypesPLINK.read"), ("haptools/data/genotypes.py", "GenotypesPLINKTR.read")]
 
     def preamble(self):
         return "From Coq Require Import QArith PrimFloat.\nOpen Scope Z_scope."
 
+    def gen_one(self, rng, cls, wide=None):
+        r = rng.random()
+        if r < 0.35:
+            fl_ = {"density": "clean", "kinds": ALL_KINDS}
+        else:
+            kinds = [["miss2", "miss1"], ["multi", "multi2"], ["unph01", "unph12", "unphhom"], ALL_KINDS][int(rng.integers(0, 4))]
+            kinds = [k for k in kinds if k != "m254"]
+            if cls in TR_LOADERS:
+                # what matters to a repeat loader: unphased heterozygotes (and that missing calls pass)
+                kinds = [["unph01", "unph12", "unphhom"], ["miss2"], ["unph01", "unph12", "miss2", "unphhom"]][int(rng.integers(0, 3))]
+            fl_ = {"density": "few" if rng.random() < 0.8 else "many", "kinds": kinds}
+        fl_["unsorted"] = False
+        fl_.update(gen_ids(rng), sdup=False)   # a VCF header cannot name a sample twice
+        while True:
+            t = gen_table(rng, "GenotypesVCF", fl_)
+            if t["samples"] and t["variants"]:
+                break
+        if wide:
+            # width boundary: 128 / 255 / 256 / 257 samples (sample-major buffers, uint8 / int32 index arrays)
+            n = wide
+            p = int(rng.integers(1, 3))
+            t["samples"] = list(range(n))
+            t["variants"] = t["variants"][:p] if len(t["variants"]) >= p else [[j, 1, 10 + j] for j in range(p)]
+            p = len(t["variants"])
+            t["rows"] = [[[int(i * (j + 2) // 3) % 2, int(i // (j + 1)) % 2, 1] for j in range(p)] for i in range(n)]
+            for _ in range(int(rng.choice([0, 1, 1, 2]))):
+                i = int(rng.choice([0, 126, 127, 128, 254, 255, 256, n - 1])) % n
+                t["rows"][i][int(rng.integers(0, p))] = [list(c) for c in ([255, 255, 0], [0, 1, 0], [1, 0, 0], [2, 1, 1], [1, 2, 0])][int(rng.integers(0, 5))]
+        # one chromosome, strictly increasing positions (tabix needs a sorted file)
+        t["variants"] = [[v[0], 1, 10 + 300 * j] for j, v in enumerate(t["variants"])]
+        t["planes"] = 3
+        case = {"cls": cls, "table": t, "kind": ("wide-" if wide else "") + fl_["density"]}
+        if cls in TR_LOADERS:
+            case["tr"] = W.gen_tr(rng, len(t["variants"]))
+        for j in range(len(t["variants"])):
+            top = len(case["tr"][j]["alt_ns"]) if cls in TR_LOADERS else 3   # ALT alleles the file declares
+            for r_ in t["rows"]:
+                c = r_[j]
+                if cls in TR_LOADERS or cls == "GenotypesPLINK":
+                    if c[0] >= 254 or c[1] >= 254:
+                        c[0], c[1], c[2] = 255, 255, 0   # a call is missing as a whole (PGEN; ./. in the repeat VCFs)
+                if c[0] >= 254 and c[1] >= 254:
+                    c[2] = 0  # cyvcf2 reports ./. as unphased
+                for q in (0, 1):
+                    if top < c[q] < 254:
+                        c[q] = top
+        if cls == "GenotypesAncestry":
+            t["anc"] = [[[int(rng.integers(0, 3)), int(rng.integers(0, 3))] for _ in t["variants"]] for _ in t["samples"]]
+        return case
+
     def generate(self, rng, n, tier):
         out = []
         for i in range(n):
-            r = rng.random()
-            if r < 0.35:
-                fl_ = {"density": "clean", "kinds": ALL_KINDS}
-            else:
-                kinds = [["miss2", "miss1"], ["multi", "multi2"], ["unph01", "unph12", "unphhom"], ALL_KINDS][int(rng.integers(0, 4))]
-                kinds = [k for k in kinds if k != "m254"]
-                fl_ = {"density": "few" if rng.random() < 0.8 else "many", "kinds": kinds}
-            fl_["unsorted"] = False
-            fl_.update(gen_ids(rng), sdup=False)   # a VCF header cannot name a sample twice
-            while True:
-                t = gen_table(rng, "GenotypesVCF", fl_)
-                if t["samples"] and t["variants"]:
-                    break
-            # one chromosome, strictly increasing positions (tabix needs a sorted file)
-            t["variants"] = [[v[0], 1, 10 + 3 * j] for j, v in enumerate(t["variants"])]
-            t["planes"] = 3
-            for r_ in t["rows"]:
-                for c in r_:
-                    if c[0] >= 254 and c[1] >= 254:
-                        c[2] = 0  # cyvcf2 reports ./. as unphased
-                    for q in (0, 1):
-                        if 3 < c[q] < 254:
-                            c[q] = 3  # the files declare three ALT alleles
-            cls = ["Genotypes", "GenotypesVCF", "GenotypesAncestry"][int(rng.integers(0, 3))]
-            if cls == "GenotypesAncestry":
-                t["anc"] = [[[int(rng.integers(0, 3)), int(rng.integers(0, 3))] for _ in t["variants"]] for _ in t["samples"]]
-            out.append({"cls": cls, "table": t, "kind": fl_["density"]})
+            cls = LOADERS[int(rng.integers(0, len(LOADERS)))]
+            out.append(self.gen_one(rng, cls))
+        nw = 2 if tier == "quick" else 12
+        for k in range(nw):
+            cls = LOADERS[int(rng.integers(0, len(LOADERS)))]
+            out.insert(min(len(out), 1 + k), self.gen_one(rng, cls, wide=int(rng.choice([128, 255, 256, 257]))))
+        return out
+
+    def exhaustive(self, tier):
+        # one sample, one variant, every call of a small alphabet, every loader
+        out = []
+        for cls in LOADERS:
+            for c in ([0, 0, 1], [0, 1, 1], [0, 1, 0], [1, 0, 0], [1, 1, 0], [1, 2, 0], [2, 1, 1], [2, 2, 0], [255, 255, 0], [0, 255, 0]):
+                if c[1] == 255 and c[0] != 255 and cls in TR_LOADERS + ("GenotypesPLINK",):
+                    continue
+                t = {"samples": [4], "variants": [[6, 1, 10]], "rows": [[list(c)]], "planes": 3,
+                     "anc": [[[1, 2]]] if cls == "GenotypesAncestry" else None}
+                case = {"cls": cls, "table": t, "kind": "exhaustive"}
+                if cls in TR_LOADERS:
+                    case["tr"] = [{"motif": "AC", "ref_n": 3, "alt_ns": [2, 5]}]
+                out.append(case)
         return out
 
     def run_impl(self, inp):
@@ -789,15 +992,29 @@ class Load(Relation):
         d = tempfile.mkdtemp(prefix="hv_c13_")
         try:
             t = inp["table"]
-            path = os.path.join(d, "in.vcf.gz")
-            is_anc = inp["cls"] == "GenotypesAncestry"
+            name = inp["cls"]
+            is_anc = name == "GenotypesAncestry"
             if is_anc:
                 from haptools.transform import GenotypesAncestry as cls
 
+                path = os.path.join(d, "in.vcf.gz")
                 write_anc_vcf(path, t)
+            elif name == "GenotypesPLINK":
+                path = os.path.join(d, "in.pgen")
+                write_pgen(path, t)
+                cls = hd.GenotypesPLINK
+            elif name == "GenotypesTR":
+                path = os.path.join(d, "in.vcf.gz")
+                W.write_tr_vcf(path, t, inp["tr"])
+                cls = hd.GenotypesTR
+            elif name == "GenotypesPLINKTR":
+                path = os.path.join(d, "in.pgen")
+                W.write_tr_pgen(path, t, inp["tr"])
+                cls = hd.GenotypesPLINKTR
             else:
+                path = os.path.join(d, "in.vcf.gz")
                 write_vcf(path, t["samples"], t["variants"], t["rows"])
-                cls = getattr(hd, inp["cls"])
+                cls = getattr(hd, name)
             # what a bare read() returns (the table the checks start from)
             try:
                 g0 = cls(path)
@@ -807,7 +1024,7 @@ class Load(Relation):
                 return {"raw": None, "out": {"other": err_kind(e), "msg": f"read(): {type(e).__name__}: {e}"[:200]}}
             try:
                 g = cls.load(path)
-                return {"raw": raw, "out": {"state": observe_state(g, is_anc)}}
+                return {"raw": raw, "out": {"state": observe_state(g, is_anc), "bool": bool(np.asarray(g.data).dtype == np.bool_)}}
             except ValueError as e:
                 m = RX_CELL.match(str(e))
                 if m:
@@ -819,51 +1036,65 @@ class Load(Relation):
             shutil.rmtree(d, ignore_errors=True)
 
     def encode(self, inp, obs):
-        sh = Shared()
+        sh = SharedC()
+        ld = loader_term(inp["cls"])
+        cid = LOADERS.index(inp["cls"])
         if not isinstance(obs, dict) or "raw" not in obs:
             k = obs.get("kind", 99) if isinstance(obs, dict) else 99
-            return sh.wrap(f"mkl {L.b(inp['cls'] == 'GenotypesAncestry')} {sh(inp['table'])} {sh(inp['table'])} (OOther {L.z(k)})")
+            return sh.wrap(f"mklw {ld} {cid} {sh(inp['table'])} {sh(inp['table'])} (OOther {L.z(k)}) false")
         o = obs["out"]
-        anc = L.b(inp["cls"] == "GenotypesAncestry")
         if obs["raw"] is None:
-            return sh.wrap(f"mkl {anc} {sh(inp['table'])} {sh(inp['table'])} (OOther {L.z(o['other'])})")
+            return sh.wrap(f"mklw {ld} {cid} {sh(inp['table'])} {sh(inp['table'])} (OOther {L.z(o['other'])}) false")
         if "state" in o:
             ot = f"(ORet {sh(o['state'])} [])"
         elif "raise" in o:
             ot = f"(ORaise {optz(o['raise'][0])} {optz(o['raise'][1])} {sh(obs['raw'])})"
         else:
             ot = f"(OOther {L.z(o['other'])})"
-        return sh.wrap(f"mkl {anc} {sh(inp['table'])} {sh(obs['raw'])} {ot}")
+        return sh.wrap(f"mklw {ld} {cid} {sh(inp['table'])} {sh(obs['raw'])} {ot} {L.b(o.get('bool', False))}")
 
     def nontrivial(self, inp, obs):
         return isinstance(obs, dict) and "out" in obs and ("raise" in obs["out"] or "state" in obs["out"])
 
     def classes(self, inp, obs):
-        out = [inp["cls"], f"density={inp['kind']}"] + id_classes(inp["table"])
+        out = [inp["cls"], f"density={inp['kind']}", f"n={len(inp['table']['samples'])}" if len(inp["table"]["samples"]) > 100 else "n<=5"]
+        out += id_classes(inp["table"])
         if isinstance(obs, dict) and "out" in obs:
             o = obs["out"]
-            out.append("raised:" + o.get("what", "?") if "raise" in o else ("loaded" if "state" in o else f"other{o.get('other')}"))
+            res = "raised:" + o.get("what", "?") if "raise" in o else ("loaded" if "state" in o else f"other{o.get('other')}")
+            out += [res, f"{inp['cls']}:{res}"]
+            if "state" in o and obs.get("raw") and offenders(obs["raw"], "missing", False):
+                out.append(f"{inp['cls']}:loaded-with-missing-calls")
         return out
 
     def shrink(self, inp):
         t = inp["table"]
         n, p = len(t["samples"]), len(t["variants"])
         anc = t.get("anc")
+        tr = inp.get("tr")
         if n > 1:
-            for i in range(n):
+            for i in (range(n) if n <= 12 else [0, n - 1]):
                 yield dict(inp, table=dict(t, samples=t["samples"][:i] + t["samples"][i + 1:], rows=t["rows"][:i] + t["rows"][i + 1:],
                                            anc=None if anc is None else anc[:i] + anc[i + 1:]))
+            if n > 12:
+                h = n // 2
+                yield dict(inp, table=dict(t, samples=t["samples"][:h], rows=t["rows"][:h], anc=None if anc is None else anc[:h]))
+                yield dict(inp, table=dict(t, samples=t["samples"][h:], rows=t["rows"][h:], anc=None if anc is None else anc[h:]))
         if p > 1:
             for j in range(p):
-                yield dict(inp, table=dict(t, variants=t["variants"][:j] + t["variants"][j + 1:],
-                                           rows=[r[:j] + r[j + 1:] for r in t["rows"]],
-                                           anc=None if anc is None else [r[:j] + r[j + 1:] for r in anc]))
-        for i in range(n):
-            for j in range(p):
-                if t["rows"][i][j] != [0, 0, 1]:
-                    rows = [[list(c) for c in r] for r in t["rows"]]
-                    rows[i][j] = [0, 0, 1]
-                    yield dict(inp, table=dict(t, rows=rows))
+                c = dict(inp, table=dict(t, variants=t["variants"][:j] + t["variants"][j + 1:],
+                                         rows=[r[:j] + r[j + 1:] for r in t["rows"]],
+                                         anc=None if anc is None else [r[:j] + r[j + 1:] for r in anc]))
+                if tr is not None:
+                    c["tr"] = tr[:j] + tr[j + 1:]
+                yield c
+        if n * p <= 64:
+            for i in range(n):
+                for j in range(p):
+                    if t["rows"][i][j] != [0, 0, 1]:
+                        rows = [[list(c) for c in r] for r in t["rows"]]
+                        rows[i][j] = [0, 0, 1]
+                        yield dict(inp, table=dict(t, rows=rows))
 
     def mutate(self, inp, rng):
         t = inp["table"]
@@ -871,23 +1102,28 @@ class Load(Relation):
         for _ in range(10):
             rows = [[list(c) for c in r] for r in t["rows"]]
             i, j = int(rng.integers(0, n)), int(rng.integers(0, p))
-            rows[i][j] = [[1, 2, 0], [0, 255, 0], [255, 255, 0], [2, 2, 1], [0, 1, 0]][int(rng.integers(0, 5))]
+            pool = [[1, 2, 0], [0, 255, 0], [255, 255, 0], [2, 2, 1], [0, 1, 0]]
+            if inp["cls"] in TR_LOADERS + ("GenotypesPLINK",):
+                pool = [[0, 1, 0], [1, 0, 0], [255, 255, 0], [1, 1, 0], [0, 1, 1]]
+            rows[i][j] = pool[int(rng.integers(0, len(pool)))]
             yield dict(inp, table=dict(t, rows=rows))
 
     def signature(self, inp, obs):
         if isinstance(obs, dict) and "out" in obs:
             o = obs["out"]
             t = obs["raw"]
-            kind = "ancestry" if inp["cls"] == "GenotypesAncestry" else "plain"
+            kind = {"LdAnc": "ancestry", "LdPlain": "plain", "LdTR": "repeat"}[loader_term(inp["cls"])]
+            if inp["cls"] in ("GenotypesPLINK", "GenotypesPLINKTR"):
+                kind += " (PGEN)"
             if "other" in o:
                 return f"load {kind}: raises exception kind {o['other']} instead of a ValueError naming the offending call"
             if "state" in o:
-                for k in ("missing", "biallelic", "phase"):
+                for k in (("phase",) if inp["cls"] in TR_LOADERS else ("missing", "biallelic", "phase")):
                     off = offenders(t, k, False)
                     if off:
                         extra = " (heterozygote of two non-reference alleles)" if k == "phase" and all(c[0] and c[1] for _, _, c in off) else ""
-                        return f"load returns data that fails check_{k}{extra}"
-            return "load: outcome differs from the three default checks"
+                        return f"load {kind} returns data that fails check_{k}{extra}"
+            return f"load {kind}: outcome differs from the checks the loader runs"
         return "load harness-level failure"
 
 
@@ -1074,14 +1310,14 @@ def gen_check(rng, n, kind=None, discard=None):
 
 class Files(Relation):
     name = "files"
-    coq_module = "C13_Check"
-    coq_check = "check_files"
-    coq_case_type = "fcase"
-    coq_model = "model_files"
-    coq_imports = ["GenoTable", "C13_Model"]
+    coq_module = "C13_CheckW"
+    coq_check = "check_wfiles"
+    coq_case_type = "wfcase"
+    coq_model = "model_wfiles"
+    coq_imports = W_IMPORTS
     budget = {"quick": 260, "thorough": 5000}
-    max_cases_per_shard = 60
-    max_chars_per_shard = 70_000
+    max_cases_per_shard = 40
+    max_chars_per_shard = 30_000
     anchors = [("haptools/data/genotypes.py", "Genotypes.read"), ("haptools/data/genotypes.py", "Genotypes.check_phase"),
                ("haptools/data/genotypes.py", "Genotypes.check_missing"), ("haptools/data/genotypes.py", "Genotypes.check_biallelic"),
                ("haptools/data/genotypes.py", "Genotypes.check_maf")]
@@ -1162,13 +1398,11 @@ class Files(Relation):
 
     # ---- implementation ---------------------------------------------------------
     def run_impl(self, inp):
-        import logging
         import warnings
 
         from haptools import data as hd
 
         warnings.simplefilter("ignore")
-        logging.disable(logging.CRITICAL)
         d = tempfile.mkdtemp(prefix="hv_c13f_")
         try:
             cls_name = inp["cls"]
@@ -1194,7 +1428,9 @@ class Files(Relation):
                 if "read" in st:
                     try:
                         if g is None:
-                            g = cls(Path(paths[st["read"]]))
+                            log, cap = W.make_log()   # the object's log records are kept (check_maf's warning)
+                            g = cls(Path(paths[st["read"]]), log=log)
+                            g._hv_cap = cap
                         else:
                             g.fname = Path(paths[st["read"]])   # the same object reads another (or the same) file
                         kw = {}
@@ -1203,7 +1439,7 @@ class Files(Relation):
                         if st.get("variants") is not None:
                             kw["variants"] = {vname(x) for x in st["variants"]}
                         g.read(**kw)
-                        o = {"state": observe_state(g, is_anc, decode=True)}
+                        o = {"state": observe_state(g, is_anc, decode=True), "bool": bool(np.asarray(g.data).dtype == np.bool_)}
                         if "shape_mismatch" in o["state"]:
                             o = {"other": 98, "msg": f"arrays out of step after read: {o['state']['shape_mismatch']}"}
                     except Exception as e:  # noqa
@@ -1218,14 +1454,14 @@ class Files(Relation):
             shutil.rmtree(d, ignore_errors=True)
 
     def encode(self, inp, obs):
-        sh = Shared()
+        sh = SharedC()
         anc = L.b(inp["cls"] == "GenotypesAncestry")
         files = L.lst([sh(t) for t in inp["files"]])
         if not isinstance(obs, dict) or "steps" not in obs:
             k = obs.get("kind", 99) if isinstance(obs, dict) else 99
-            return sh.wrap(f"mkf {anc} {files} [({step_term(inp['steps'][0])}, OOther {L.z(k)})]")
-        parts = [f"({step_term(st)}, {obs_term(o, sh)})" for st, o in zip(inp["steps"], obs["steps"])]
-        return sh.wrap(f"mkf {anc} {files} {L.lst(parts)}")
+            return sh.wrap(f"mkwf {anc} {files} [({step_term(inp['steps'][0])}, mkw (OOther {L.z(k)}) false [])]")
+        parts = [f"({step_term(st)}, {wobs_term(o, sh)})" for st, o in zip(inp["steps"], obs["steps"])]
+        return sh.wrap(f"mkwf {anc} {files} {L.lst(parts)}")
 
     # ---- bookkeeping --------------------------------------------------------------
     def walk(self, inp, obs):
@@ -1251,14 +1487,23 @@ class Files(Relation):
         for f in inp["files"]:
             out += id_classes(f)
         nread = 0
+        isb = False
         for st, cur, o in self.walk(inp, obs):
             if "read" in st:
                 nread += 1
+                if isb and "state" in o:
+                    out.append("read-after-bool-cast")
+                isb = False
                 tag = "read" + ("-again" if nread > 1 else "") + ("-some-variants" if st.get("variants") is not None else "") \
                     + ("-some-samples" if st.get("samples") is not None else "")
                 out.append(f"{tag}:{'other' + str(o['other']) if 'other' in o else 'ok'}")
                 continue
             tag = st["op"] + ("+discard" if st.get("discard") else "") + ("@reread" if nread > 1 else "")
+            if isb and "other" not in o:
+                out.append(f"{st['op']}:on-bool-data")
+            isb = o.get("bool", isb)
+            if st["op"] == "maf" and st.get("warn") and not st.get("discard") and st.get("thr") is not None and "state" in o:
+                out.append("maf-warn-only:" + ("warned" if o.get("warn") else "silent"))
             if "raise" in o:
                 out.append(f"{tag}:raised")
             elif "other" in o:
@@ -1366,15 +1611,20 @@ LEVEL_TEXT = (
     "check_phase / check_maf / check_sorted (np.nonzero + np.delete on index arrays modelled and proved equal to "
     "filtering by the offender predicate): each check raises iff an offending call exists and names one, discard mode "
     "removes exactly the offending samples / variants and keeps the rest (values, order, IDs, ancestry in step), "
-    "check_phase strips the phase plane otherwise, the loader's result passes all three checks; boolean checkers of "
-    "these clauses proved sound; check_sorted raises iff a later variant of the same chromosome has a smaller position; "
-    "check_maf instantiated with the exact rational MAF min(f,1-f), f = count/(2n); and, for every history of read() and "
-    "checks on one object (any length, any order, re-reads included), every call's outcome satisfies its clause for the "
-    "contents the object has at that moment, the object stays well-formed (ancestry in step), and a read() makes the "
-    "earlier history irrelevant. The model is tied to /repo on every run by evaluating, inside Coq, model-vs-"
-    "implementation agreement and the clause checkers on generated arrays for all classes (IDs unique, repeated or "
-    "missing; offenders and survivors identified by position), on VCF loads, and on histories of one object reading "
-    "real VCF.gz / PGEN files, checking, re-reading and checking again."
+    "check_phase strips the phase plane otherwise; the loaders of all six classes (Genotypes / VCF / PLINK: the three checks; "
+    "Ancestry: its overrides; TR / PLINKTR: the phase check alone): postcondition, acceptance of clean data, the error names an "
+    "offender, and what is returned passes again every check its loader runs; boolean checkers of these clauses proved sound; "
+    "check_sorted raises iff a later variant of the same chromosome has a smaller position; check_maf instantiated with the "
+    "exact rational MAF min(f,1-f), f = count/(2n); warn_only logs a record iff some variant is rare and names the variant raise "
+    "mode would name; and, for every history of read() and checks on one object (any length, any order, re-reads included), "
+    "every call's outcome satisfies its clause for the contents the object has at that moment, the object stays well-formed "
+    "(ancestry in step), a read() makes the earlier history irrelevant, and following the code's dtype-dependent branches "
+    "(bool data after check_biallelic: early return, comparisons with 254 never true) changes no outcome and no content "
+    "(C13_typed_history_refines). The model is tied to /repo on every run by evaluating, inside Coq, model-vs-implementation "
+    "agreement (outcomes, contents, dtype, warning records) and the clause checkers on generated arrays for all classes (IDs "
+    "unique, repeated or missing; offenders and survivors identified by position; uint8 and bool arrays; width boundaries up to "
+    "32769 samples / 1001 variants / 65792 calls), on loads of VCF.gz / PGEN / repeat files by all six loaders, and on histories "
+    "of one object reading real VCF.gz / PGEN files, checking, re-reading and checking again."
 )
 LEVEL_NOTE = (
     "Trusted: Coq kernel/vm_compute; the hand-written model (validated differentially on every run); numpy "
@@ -1383,11 +1633,18 @@ LEVEL_NOTE = (
     "observed values). Missing = cell >= 254 (255 only in GenotypesAncestry, as in the code); where the property is "
     "silent (254 in an ancestry object, missing values met by the biallelic check) the checker accepts "
     "either behaviour; check_phase must raise iff a call with both alleles present (< 254), different and unphased "
-    "exists (a half-missing or haploid call is not a heterozygote). Data dtype (bool after check_biallelic) is not observed, values are. "
+    "exists (a half-missing or haploid call is not a heterozygote). The dtype of data (bool after check_biallelic) is observed "
+    "and compared with the model (agree only: the property does not speak about it). warn_only: holds demands at least one "
+    "WARNING-level record when a variant is below the threshold by more than 1e-9, none when no variant is within 1e-9 of being "
+    "below it, and that a variant a parsed warning names can be read as below it; the wording is not demanded. The repeat "
+    "loaders (GenotypesTR, GenotypesPLINKTR) run check_phase only - check_biallelic / check_maf are NotImplementedError stubs "
+    "there and check_missing is not called - so they are held to the phase clause; a missing repeat call in loaded data is not "
+    "a violation. A loader that refuses a file must name a call that can be read as offending against one of its checks (a "
+    "missing call named by the multiallelic test is accepted). "
     "files relation: 'the data currently loaded' after read() is the content of the file as the harness wrote it (calls, "
     "phase flags, ancestry labels); a check whose verdict or result is not the clause for that content - e.g. because a "
     "flag set by an earlier call on the same object made read() skip the phase flags - fails holds. The theorems that the "
     "executable models of qc / files are instances of the proved histories mention primitive floats and live in "
-    "C13_ProofsHist.v (model_run_hrun, model_frun_hrun), not in C13_Property.v."
+    "C13_ProofsHist.v (model_run_hrun, model_frun_hrun) and C13_ProofsW.v (model_step_w_hstep_d), not in C13_Property.v."
 )
 TECHNIQUE = "Coq proof (list induction over nonzero/delete) + vm_compute-evaluated correspondence against the implementation"
